@@ -98,11 +98,12 @@ OpSMoveConstruct(s, t) == /\ En("sc") /\ Alive(s) /\ ~Alive(t)
                           /\ rem' = [rem EXCEPT ![t] = [alive |-> TRUE, tgt |-> rem[s].tgt, resp |-> rem[s].resp], ![s].resp = {}]
                           /\ UNCHANGED <<lst, kind, frames, pending, ndisp, nenq, added, bad>> /\ H("sc", s, t)
 \* move assignment: what the destination held is detached (the D6 repair); with the defect it is orphaned
-OpSMoveAssign(s, t) == /\ En("sm") /\ Alive(s) /\ Alive(t) /\ s # t
-                       /\ lst' = IF Fixed("orphan") THEN Release(lst, t) ELSE lst
-                       /\ rem' = [rem EXCEPT ![t].resp = rem[s].resp, ![t].tgt = rem[s].tgt, ![s].resp = {}]
+\* (a remover move-assigned from itself, or swapped with itself, keeps what it answers for - seed S86)
+OpSMoveAssign(s, t) == /\ En("sm") /\ Alive(s) /\ Alive(t)
+                       /\ lst' = IF Fixed("orphan") /\ s # t THEN Release(lst, t) ELSE lst
+                       /\ rem' = IF s = t THEN rem ELSE [rem EXCEPT ![t].resp = rem[s].resp, ![t].tgt = rem[s].tgt, ![s].resp = {}]
                        /\ UNCHANGED <<kind, frames, pending, ndisp, nenq, added, bad>> /\ H("sm", s, t)
-OpSSwap(s, t) == /\ En("ss") /\ Alive(s) /\ Alive(t) /\ s < t
+OpSSwap(s, t) == /\ En("ss") /\ Alive(s) /\ Alive(t) /\ s <= t
                  /\ rem' = [rem EXCEPT ![t] = rem[s], ![s] = rem[t]]
                  /\ UNCHANGED <<lst, kind, frames, pending, ndisp, nenq, added, bad>> /\ H("ss", s, t)
 OpSDestroy(r) == /\ En("sd") /\ Alive(r) /\ lst' = Release(lst, r) /\ rem' = [rem EXCEPT ![r] = [alive |-> FALSE, tgt |-> 1, resp |-> {}]]
